@@ -75,10 +75,22 @@ def one_exec(cfg):
                     write_file(os.path.join(ws, "s", "untracked"), b"untracked-user-file")
                 tname = cfg["target"]
                 target = load_obj(odb, "x" if tname == "file:x" else tname)
+            loss = cfg.get("cacheloss", "none")
+            if loss != "none":
+                # the cache loses (or gets a corrupted) object x after it was verified by the first checkout:
+                # the workspace copies of x are now the only ones
+                px = odb.oid_to_path(MD5["x"])
+                os.chmod(px, 0o644)
+                if loss == "remove-x":
+                    os.unlink(px)
+                else:
+                    with open(px, "wb") as fh:
+                        fh.write(b"bit-rot")
+                    stamp(px)
             before = walk_files(ws)
             before_l = lstat_map(ws)
             cache_before = {k: v[0] for k, v in store_snapshot(odb.path).items() if isinstance(k, str)}
-            cached_digests = set(cache_before)
+            cached_digests = {k for k, v in cache_before.items() if isinstance(v, bytes) and ref.md5(v) == k.split(".")[0]}
             prompts = []
             prompt = None
             if cfg["prompt"] == "declining":
@@ -134,7 +146,7 @@ def one_exec(cfg):
                         viol.append(("prompt-error-path-was-modified", f"{rel}: {uncached_lost}"))
                 elif before_l.get(rel) != after_l.get(rel) or before.get(rel) != after.get(rel):
                     viol.append(("prompt-error-path-was-modified", f"{rel}"))
-            if cache_after != cache_before:
+            if loss == "none" and cache_after != cache_before:
                 viol.append(("cache-object-bytes-changed", ""))
         finally:
             if state is not None:
@@ -149,12 +161,27 @@ def run_case(case):
     base = case["base"]
     npaths = case["npaths"]
     vecs = [v + ("same",) * (3 - npaths) for v in itertools.product(PMUTS, repeat=npaths)]
+    combos = []
     for target in TARGETS:
         tv = vecs if target != "from-file" else [("same",) * 3, ("cached",) + ("same",) * 2, ("uncached",) + ("same",) * 2]
         for vec in tv:
             for untracked in ((False, True) if target != "from-file" else (False,)):
                 for relink in (False, True):
-                    cfg = dict(base, target=target, vec=list(vec), untracked=untracked, relink=relink)
+                    combos.append((target, vec, untracked, relink, "none"))
+    for target in ("A", "B", "S", "N", "file:x"):
+        for loss in ("remove-x", "corrupt-x"):
+            # a linked workspace file *is* the cache object: losing it there is not a checkout matter
+            if base["link"] == "symlink" or (base["link"] == "hardlink" and loss == "corrupt-x"):
+                continue
+            for relink in (False, True):
+                combos.append((target, ("same",) * 3, False, relink, loss))
+                combos.append((target, ("retyped",) + ("same",) * 2, False, relink, loss))
+    for target, vec, untracked, relink, loss in combos:
+        if True:
+            if True:
+                if True:
+                    cfg = dict(base, target=target, vec=list(vec), untracked=untracked, relink=relink,
+                               cacheloss=loss)
                     viol, info = one_exec(cfg)
                     res["n"] += 1
                     res["trans"] += 2
@@ -164,6 +191,8 @@ def run_case(case):
                         res["nontrivial"].add(d)
                     if "uncached" in vec or untracked:
                         res["vac"]["uncached_vectors"] += 1
+                    if loss != "none":
+                        res["vac"]["cache_loss_runs"] = res["vac"].get("cache_loss_runs", 0) + 1
                     if info["outcome"] == "PromptError":
                         res["vac"]["refusals"] += 1
                     if info["outcome"] == "ok":
@@ -184,7 +213,8 @@ def run_case(case):
 # ---- link clean-up --------------------------------------------------------------
 
 LOPS = [("save", "p1"), ("save", "p2"), ("mod", "p1"), ("repl", "p1"), ("rm", "p1"), ("touch", "p1"),
-        ("edit-inner", "p2"), ("add-inner", "p2"), ("rename-inner", "p2"),
+        ("edit-inner", "p2"), ("edit-inner-u", "p2"), ("edit-inner-v", "p2"), ("add-inner", "p2"),
+        ("rename-inner", "p2"),
         ("clean", ""), ("clean", "p1"), ("clean", "p2")]
 
 
@@ -201,6 +231,9 @@ def run_links(hist):
             write_file(p["p1"], b"tracked-1")
             write_file(os.path.join(p["p2"], "in1"), b"inner-1")
             write_file(os.path.join(p["p2"], "in2"), b"inner-2")
+            # same file name in two sub-directories (e.g. train/part-0, test/part-0)
+            write_file(os.path.join(p["p2"], "u", "part"), b"part-u")
+            write_file(os.path.join(p["p2"], "v", "part"), b"part-v")
             recorded = {}   # name -> modified since recording?
             for i, op in enumerate(hist):
                 k, name = op
@@ -233,6 +266,12 @@ def run_links(hist):
                     f = os.path.join(p["p2"], "in1")
                     if os.path.exists(f):
                         write_file(f, b"inner-edited-%d" % i)
+                        if "p2" in recorded:
+                            recorded["p2"] = True
+                elif k in ("edit-inner-u", "edit-inner-v"):
+                    f = os.path.join(p["p2"], k[-1], "part")
+                    if os.path.exists(f):
+                        write_file(f, b"part-edited-%d" % i)
                         if "p2" in recorded:
                             recorded["p2"] = True
                 elif k == "add-inner":
@@ -319,7 +358,7 @@ def run(ctx):
     depth = 4
     ctx.rule = (
         f"E2: tree A checked out, then every mutation vector over {npaths} paths x {{untouched, deleted, edited to "
-        "cached content, edited to uncached content, re-typed copy}} (+ untracked file on/off) x target {same, other "
+        "cached content, edited to uncached content, re-typed copy}} (+ untracked file on/off; + the cache losing / corrupting an object after the first checkout verified it) x target {same, other "
         "tree, subset, disjoint tree, directory->single file, single file->directory} x both store classes x link "
         "type {copy, hardlink, symlink} x relink x prompt {absent, declining} x state on/off, force off; link "
         f"clean-up: every history of length {depth} over {len(LOPS)} operations (record, modify, touch, replace, "
@@ -332,7 +371,7 @@ def run(ctx):
         "'recoverable' = the cache holds an object named by the md5 of the bytes with exactly those bytes",
         "clean-up: only safety is demanded (what is removed was recorded, unused and unmodified)",
     ]
-    ctx.require("refusals", "uncached_vectors", "completed", "kind_change_runs", "cleanups_that_removed",
+    ctx.require("refusals", "uncached_vectors", "completed", "kind_change_runs", "cache_loss_runs", "cleanups_that_removed",
                 "link_histories")
     cs = []
     for kind in ("local", "base"):
